@@ -126,7 +126,9 @@ func (k *Keeper) AddRateLimit(ctx sdk.Context, msg *types.MsgAddRateLimit) error
 		Flow:  &flow,
 	})
 
-	return nil
+	// The new rate limit starts a fresh window: packets that were sent or received under a previously removed
+	// rate limit for the same path must not be undone against the new flow
+	return k.removeAllChannelPendingPackets(ctx, msg.ChannelOrClientId, msg.Denom)
 }
 
 // Updates an existing rate limit. Fails if the rate limit doesn't exist
@@ -159,7 +161,17 @@ func (k *Keeper) UpdateRateLimit(ctx sdk.Context, msg *types.MsgUpdateRateLimit)
 		Flow:  &flow,
 	})
 
-	return nil
+	// The flow was reset, so (as in ResetRateLimit) packets of the previous window must not be undone against it
+	return k.removeAllChannelPendingPackets(ctx, msg.ChannelOrClientId, msg.Denom)
+}
+
+// removeAllChannelPendingPackets removes the pending send and receive packet records of a rate limit path
+func (k *Keeper) removeAllChannelPendingPackets(ctx sdk.Context, channelID string, denom string) error {
+	if err := k.RemoveAllChannelPendingSendPackets(ctx, channelID, denom); err != nil {
+		return err
+	}
+
+	return k.RemoveAllChannelPendingReceivePackets(ctx, channelID, denom)
 }
 
 // Reset the rate limit after expiration
